@@ -327,7 +327,7 @@ fn run(args: &Args, rep: &mut Report) {
         &mut acc,
         "random-values",
         rt::derive_seed(args.seed, "random-values", 0),
-        tier.pick(20_000, 400_000),
+        tier.pick(20_000, 3_000_000),
         &arb_config(have_pty),
         |cfg, _| match check_config(cfg, &st) {
             Ok(()) => Verdict::ok((cfg.global == 0 && cfg.env.iter().any(|v| v.is_some())).then(|| digest_str(&describe(cfg)))),
